@@ -105,6 +105,21 @@ def _ops():
         return (p, mm, m[X.mem(A, w)], m(X.mem(A + 1, w)))
     C["ptr-mem"] = c_ptr
 
+    def c_cx(A, B, w):
+        # the same kinds of use with the complexity threshold on (small): over-complex sub-terms become top
+        conf.Cas.complexity = 5
+        try:
+            x = X.op("+", A, B).simplify()
+            y = (A ^ B) & A
+            m1 = mapper()
+            m1[X.reg("r", w)] = A
+            m2 = mapper()
+            m2[X.reg("r", w)] = B
+            return (x, y, merge(m1, m2), m1 >> m2)
+        finally:
+            conf.Cas.complexity = 0
+    C["complexity-5"] = c_cx
+
     def c_cond(A, B, w):
         c = (A == B)
         m = mapper()
@@ -127,7 +142,9 @@ def operand_trees(w, tier, seed):
     if w >= 2:
         base.append(("cat", [("reg", "p", w // 2), ("reg", "q", w - w // 2)]))
     n = 60 if tier == "quick" else 500
-    return base + fam[:n]
+    d2 = [t for t in TR.depth2(w, heavy=False) if TR.width(t) == w and TR.regs_of(t)]
+    rnd.shuffle(d2)
+    return base + fam[:n] + d2[:(40 if tier == "quick" else 400)]
 
 
 def items(tier, seed):
@@ -164,7 +181,7 @@ def same(P, snap, e):
     except TS.TranslateError:
         return None
     if c.saw_top:
-        return None
+        return ("became-unknown", "a sub-term of the operand object was replaced by top")
     if len(ts0) != len(ts1):
         return ("value", "alternatives %d -> %d" % (len(ts0), len(ts1)))
     for a, b in zip(ts0, ts1):
@@ -239,6 +256,13 @@ def replay(rep):
         pass
     if obj.size != size0:
         return (True, "size %s -> %s" % (size0, obj.size))
+    if rep["what"] == "became-unknown":
+        cc = TS.Ctx()
+        try:
+            TS.expand(obj, cc)
+        except Exception:
+            pass
+        return (cc.saw_top, "the operand object printed %s before the use and %s after it" % (s0, obj))
     if rep["what"] == "sf":
         return (bool(obj.sf) != sf0, "sign flag %s -> %s (object printed %s)" % (sf0, bool(obj.sf), s0))
     rnd = random.Random(5)
@@ -252,6 +276,10 @@ def replay(rep):
             got = _py_eval(obj, {(n, sz): env[n] for n, sz in regs.items()})
         except Exception as ex:
             return (True, "after use, evaluating the operand raises %s" % type(ex).__name__)
+        if got._is_vec:
+            vals = sorted({a.v for a in TS.alternatives(got) if a._is_cst})
+            if len(vals) > 1:
+                return (True, "after use the operand object (was %s, now %s) evaluates to the SET %s under %s; its construction denotes the single value %#x" % (s0, obj, [hex(v) for v in vals], env, want))
         if got._is_cst and got.v != want:
             return (True, "after use the operand object (was %s, now %s) evaluates to %#x under %s; its construction denotes %#x" % (s0, obj, got.v, env, want))
     try:
@@ -429,7 +457,7 @@ def coverage(agg, tier):
         "solver_s": round(agg.get("solver_s", 0.0), 1),
         "consumers": list(CONSUMERS),
         "rule": "program = (operand tree A, operand tree B, consuming operation) or one pickled object; obligation = 'exists registers: T_before(operand) != T_after(operand)' (or T(x) != T(loads(dumps(x)))) plus size / sign flag / str / eq comparisons",
-        "bounds": {"operands": "A: 3 base shapes + (quick 60 | thorough 500) seed-selected depth-1 trees of width w; B: 6 shapes; widths quick {8,32}, thorough {8,16,32,64}; %d consumers" % len(CONSUMERS),
+        "bounds": {"operands": "A: 3 base shapes + (quick 60 | thorough 500) seed-selected depth-1 trees + (40 | 400) depth-2 trees of width w; B: 6 shapes; widths quick {8,32}, thorough {8,16,32,64}; %d consumers" % len(CONSUMERS),
                    "pickle": "quick 250 / thorough 3000 trees x {exp, mem, ptr, vec, slc-of-reg, signed} x protocols {HIGHEST, 2}; one mapper + MemoryMap per tree",
                    "outside": "sequences of more than one consuming operation on the same operand; ext/lab; cfp"},
         "exhaustive": False,
